@@ -23,6 +23,8 @@ UTF8_RUNS = [
 MALFORMED = ["%", "%%", "%4", "%G1", "%1G", "%%41", "%zz", "%A", "%a%", "% 41", "%+41", "%\xe9", "%4\xe9", "%\U0001f600",
              # look-alikes of hex digits: Unicode decimal digits (Arabic-Indic, full-width, Devanagari, mathematical), full-width letters, superscripts
              "%\u0664\u0661", "%4\uff11", "%\uff14\uff11", "%\uff21\uff22", "%\u0967\u0968", "%\U0001d7dc\U0001d7d9", "%\xb2\xb3", "%4\u0661", "%\u0664" + "1", "%\uff41\uff46"]
+LOWBYTE_HEX = ["%\u0441\u0442", "%\u0130\u0131", "%4\u0141", "%\u0141" + "1", "%\u0434\u0435", "%\u0a41\u0a42", "%\u4e41\u4e42", "%\U00010341\U00010342", "%\u0161\u0166"]
+MALFORMED += LOWBYTE_HEX
 UNICODE_DIGITS = [chr(c) for c in (0x660, 0x661, 0x664, 0x6F4, 0x966, 0x967, 0xFF10, 0xFF11, 0xFF14, 0xFF21, 0xFF26, 0xFF41, 0xFF46, 0x1D7CE, 0x1D7DC, 0xB2, 0xB3, 0xB9, 0x2074, 0x2460, 0x0E54, 0x1810)]
 MALFORMED_SURR = ["%\ud80041", "%4\udc00", "%9\udffff", "\ud800%41"]
 DOTS = [".", "..", "...", ".a", "a.", "%2E", "%2e%2E", "/./", "/../", "/.", "/..", "./", "../"]
